@@ -1024,3 +1024,166 @@ Proof.
     pose proof (mr_step ops s i R) as R1. destruct (tstep s i) as [s1 pt]. apply IH. exact R1. }
   apply G. constructor.
 Qed.
+
+(* ====================================================================================================
+   warm-up: what the reusing policies have learned *)
+Definition WIs (p : prm) (s : sto) (cm : Z) : Prop :=
+  0 <= cm /\
+  match p_pol p with
+  | PReu => cm <= s_cap s
+  | PMts => 0 < cm -> cm + ptr_sz <= s_cap s
+  | PStk => 0 < cm -> cm + 1 <= s_state s
+  | PBuf => 0 < cm -> (cm + p_a p - 1) / p_a p <= s_bsize s
+  | _ => True
+  end.
+
+Definition learn' (p : prm) (cm n : Z) (g : grant) : Z :=
+  match p_pol p with PMts => if g_tr g then Z.max cm n else cm | _ => Z.max cm n end.
+
+Lemma ceil_mono a n m : 0 < a -> n <= m -> (n + a - 1) / a <= (m + a - 1) / a.
+Proof. intros A L. apply Z.div_le_mono; lia. Qed.
+
+Lemma balloc_WI p h s n cm : WIs p s cm -> 0 < n -> (p_pol p = PBuf -> 0 < p_a p) ->
+  WIs p (snd (fst (balloc p h s n))) (learn' p cm n (snd (balloc p h s n))).
+Proof.
+  intros [C0 W] N PB. unfold balloc, learn', WIs. destruct (p_pol p) eqn:EP.
+  - unfold hnew. cbn [fst snd]. split; [lia|exact Logic.I].
+  - unfold reu_alloc, hnew. destruct (n >? s_cap s) eqn:G; cbn [fst snd s_cap]; split; lia.
+  - destruct (s_busy s).
+    + unfold mts_lost, hnew. cbn [fst snd g_tr]. split; [lia|exact W].
+    + unfold mts_won, reu_alloc, hnew. cbn [set_busy s_cap s_ptr].
+      destruct (n + ptr_sz >? s_cap s) eqn:G; cbn [fst snd g_tr s_cap set_busy]; split; unfold ptr_sz in *; lia.
+  - destruct (n + 1 <=? s_state s) eqn:G; unfold hnew; cbn [fst snd s_state]; split; lia.
+  - cbn [fst snd]. split; [lia|exact Logic.I].
+  - specialize (PB eq_refl). set (items := (n + p_a p - 1) / p_a p).
+    assert (BS : forall bs, s_bsize s <= bs -> items <= bs ->
+                 0 <= Z.max cm n /\ (0 < Z.max cm n -> (Z.max cm n + p_a p - 1) / p_a p <= bs)).
+    { intros bs L1 L2. split; [lia|]. intros _. destruct (Z.max_spec cm n) as [[M ->]|[M ->]]; [exact L2|].
+      assert (0 < cm) by lia. specialize (W H). lia. }
+    destruct (s_bsize s <? items) eqn:G1.
+    + unfold vec_resize. destruct (items >? s_bcap s); unfold hnew; cbn [fst snd s_bsize]; apply BS; lia.
+    + cbn [fst snd]. apply BS; lia.
+Qed.
+
+Lemma bdealloc_WI p h s b tr cm : WIs p s cm -> WIs p (snd (bdealloc p h s b tr)) cm.
+Proof.
+  intros W. unfold bdealloc. destruct (p_pol p) eqn:EP; try destruct tr; cbn [snd]; exact W.
+Qed.
+
+(* after warm-up: a request no larger than what has been learned, made while the policy's block is free, costs nothing *)
+Lemma balloc_warm p h s n cm : WIs p s cm -> 0 < n -> n <= cm -> (p_pol p = PBuf -> 0 < p_a p) ->
+  (p_pol p = PMts -> s_busy s = false) -> p_pol p <> PDef ->
+  fst (fst (balloc p h s n)) = h.
+Proof.
+  intros [C0 W] N L PB NB ND. unfold balloc. destruct (p_pol p) eqn:EP; try congruence.
+  - unfold reu_alloc. destruct (n >? s_cap s) eqn:G; [lia|reflexivity].
+  - rewrite (NB eq_refl). unfold mts_won, reu_alloc. cbn [set_busy s_cap].
+    destruct (n + ptr_sz >? s_cap s) eqn:G; [unfold ptr_sz in *; lia|reflexivity].
+  - destruct (n + 1 <=? s_state s) eqn:G; [reflexivity|lia].
+  - reflexivity.
+  - specialize (PB eq_refl). pose proof (ceil_mono (p_a p) n cm PB L).
+    destruct (s_bsize s <? (n + p_a p - 1) / p_a p) eqn:G; [lia|reflexivity].
+Qed.
+
+Lemma balloc_learned p h s n cm : (p_pol p = PMts -> s_busy s = false) -> n <= learn' p cm n (snd (balloc p h s n)).
+Proof.
+  intros NB. unfold learn', balloc. destruct (p_pol p) eqn:EP; try lia.
+  rewrite (NB eq_refl). unfold mts_won. destruct (reu_alloc h (set_busy s true) (n + ptr_sz)) as [[h1 s1] b].
+  cbn [snd g_tr]. lia.
+Qed.
+
+Definition WR (p : prm) (c : core) : Prop := c_up c = true -> WIs p (st c) (c_max c).
+
+Lemma gstep_WR pol p c o : RI pol p c -> WR p c ->
+  let p1 := if wf_op c o then prm_of pol p o else p in WR p1 (fst (gstep p1 c o)).
+Proof.
+  intros (EP & HK & UP & DN) W. cbn zeta. unfold gstep.
+  destruct (wf_op c o) eqn:WF; cbn [andb]; [|exact W].
+  destruct (contract (prm_of pol p o) c o) eqn:CT; cbn [fst].
+  { destruct o as [x a b|slot sz|slot| |]; cbn [prm_of exec fst] in *.
+    - intros _. unfold init_core. cbn [p_pol p_b p_a].
+      assert (B : forall s, s_cap s = 0 -> WIs (mkPrm pol x a b) s 0).
+      { intros s E. unfold WIs. split; [lia|]. cbn [p_pol]. destruct pol; auto; try lia. }
+      destruct pol; try (apply B; reflexivity).
+      destruct (0 <? b); [unfold hnew; cbn [st c_max]|]; apply B; reflexivity.
+    - cbn [wf_op] in WF. repeat (apply andb_prop in WF; destruct WF as [WF ?]).
+      specialize (UP WF). specialize (W WF). intros _.
+      assert (PB : p_pol p = PBuf -> 0 < p_a p).
+      { intros E. pose proof (i_sto _ _ _ _ _ UP) as S. unfold sto_ok in S. rewrite E in S. tauto. }
+      pose proof (balloc_WI p (hp c) (st c) (sz + p_x p) (c_max c) W ltac:(pose proof (i_pos _ _ _ _ _ UP); lia) PB) as BW.
+      unfold create, mk_frame. destruct (balloc p (hp c) (st c) (sz + p_x p)) as [[h1 s1] g]. cbn [fst snd st c_max] in *.
+      exact BW.
+    - cbn [wf_op] in WF. apply andb_prop in WF. destruct WF as [WF G].
+      destruct (fget (frs c) slot) as [f|]; [|discriminate]. specialize (W WF). intros _.
+      pose proof (bdealloc_WI p (hp c) (st c) (f_blk f) (f_tr f) (c_max c) W) as BW.
+      unfold finish. destruct (bdealloc p (hp c) (st c) (f_blk f) (f_tr f)) as [h1 s1]. cbn [fst snd st c_max] in *. exact BW.
+    - unfold destroy, WR. cbn [c_up]. discriminate.
+    - discriminate. }
+  destruct o; cbn [prm_of] in *; try exact W.
+  cbn [wf_op] in WF. repeat (apply andb_prop in WF; destruct WF as [WF ?]). apply negb_true_iff in WF.
+  intros U. congruence.
+Qed.
+
+Definition RW (pol : policy) (p : prm) (c : core) : Prop := RI pol p c /\ WR p c.
+
+Lemma run_RW pol : forall l p c, RW pol p c ->
+  RW pol (fst (snd (run_with gstep pol p c l))) (snd (snd (run_with gstep pol p c l))).
+Proof.
+  induction l as [|o l IH]; intros p c R; cbn [run_with]; [exact R|].
+  destruct R as [R W].
+  pose proof (gstep_RI pol p c o R) as R1. pose proof (gstep_WR pol p c o R W) as W1. cbn zeta in R1, W1.
+  destruct (gstep (if wf_op c o then prm_of pol p o else p) c o) as [c1 ob] eqn:E. cbn [fst] in R1, W1.
+  specialize (IH _ _ (conj R1 W1)).
+  destruct (run_with gstep pol (if wf_op c o then prm_of pol p o else p) c1 l) as [obs r]. exact IH.
+Qed.
+
+Lemma final_RW pol l : contract_ok pol l = true -> RW pol (final_p pol l) (final_u pol l).
+Proof.
+  intros H. unfold final_p, final_u, run_u. unfold contract_ok in H. rewrite (contract_ok_same pol l _ _ H).
+  apply run_RW. split; [apply core0_RI|]. unfold WR. cbn. discriminate.
+Qed.
+
+(* C19 warm: after a frame of size s, a frame of size <= s created while the policy's block is free leaves the heap untouched *)
+Lemma warm_no_alloc pol l slot sz : contract_ok pol l = true ->
+  let c := final_u pol l in let p := final_p pol l in
+  wf_op c (OCreate slot sz) = true -> contract p c (OCreate slot sz) = true -> pol <> PDef ->
+  sz + p_x p <= c_max c -> (pol = PMts -> s_busy (st c) = false) ->
+  hp (fst (create p c slot sz)) = hp c.
+Proof.
+  intros H c p WF CT ND LE NB. destruct (final_RW pol l H) as [(EP & HK & UP & DN) W]. fold c p in EP, UP, W.
+  cbn [wf_op] in WF. repeat (apply andb_prop in WF; destruct WF as [WF ?]).
+  specialize (UP WF). specialize (W WF).
+  assert (PB : p_pol p = PBuf -> 0 < p_a p).
+  { intros E. pose proof (i_sto _ _ _ _ _ UP) as S. unfold sto_ok in S. rewrite E in S. tauto. }
+  pose proof (i_pos _ _ _ _ _ UP) as X.
+  pose proof (balloc_warm p (hp c) (st c) (sz + p_x p) (c_max c) W ltac:(lia) LE PB ltac:(rewrite EP; exact NB) ltac:(rewrite EP; exact ND)) as BW.
+  unfold create, mk_frame. destruct (balloc p (hp c) (st c) (sz + p_x p)) as [[h1 s1] g]. cbn [fst hp] in *. exact BW.
+Qed.
+
+(* ... and every creation served by the policy's block is learned *)
+Lemma learned pol l slot sz :
+  let c := final_u pol l in let p := final_p pol l in
+  p_pol p = pol -> (pol = PMts -> s_busy (st c) = false) -> sz + p_x p <= c_max (fst (create p c slot sz)).
+Proof.
+  intros c p EP NB.
+  pose proof (balloc_learned p (hp c) (st c) (sz + p_x p) (c_max c) ltac:(rewrite EP; exact NB)) as BL.
+  unfold create, mk_frame. destruct (balloc p (hp c) (st c) (sz + p_x p)) as [[h1 s1] g]. cbn [fst snd c_max] in *. exact BL.
+Qed.
+
+(* ... and nothing is forgotten while the storage lives *)
+Lemma cmax_mono p c o : c_up c = true -> c_max c <= c_max (fst (gstep p c o)).
+Proof.
+  intros U. unfold gstep. destruct (wf_op c o && contract p c o) eqn:G; [|cbn [fst]; lia].
+  apply andb_prop in G. destruct G as [WF _].
+  destruct o as [x a b|slot sz|slot| |]; cbn [exec fst].
+  - cbn [wf_op] in WF. rewrite U in WF. discriminate.
+  - unfold create, mk_frame. destruct (balloc p (hp c) (st c) (sz + p_x p)) as [[h1 s1] g]. cbn [fst c_max].
+    unfold learn. destruct (p_pol p); try lia. destruct (g_tr g); lia.
+  - destruct (fget (frs c) slot) as [f|]; cbn [fst]; [|lia].
+    unfold finish. destruct (bdealloc p (hp c) (st c) (f_blk f) (f_tr f)). cbn [c_max]. lia.
+  - unfold destroy. cbn [c_max]. lia.
+  - discriminate.
+Qed.
+
+Lemma contract_free_ok0 pol l : contract_free pol = true -> contract_ok pol l = true.
+Proof. intros H. exact (contract_free_ok pol H l (prm0 pol) core0 eq_refl). Qed.
